@@ -603,6 +603,19 @@ def run_templates(case):
             vio(res, f"address/{t}/{netcls}", "templates", case, got, want, "ScriptPubKey.address(network) differs from the reference address")
         else:
             res.ok("address==ref", key, sample={"template": t, "network": net, "hash": h, "addr": want} if kind == "lead0x2" else None)
+        # the SAME object asked for every network in turn, in two orders (state kept on the object between calls)
+        for order in (list(R.NETWORKS), list(R.NETWORKS)[::-1], [net] + [x for x in R.NETWORKS if x != net]):
+            o2 = attempt(classes[t], h)
+            seq = []
+            for n2 in order:
+                seq.append((n2, attempt(o2.address, n2), R.address(t, h, n2)))
+            bad = [(n2, g, w) for n2, g, w in seq if g != w]
+            if bad:
+                vio(res, f"address-on-reused-object/{t}", "templates", case, {"order": order, "got": [g for _, g, _ in seq]}, [w for _, _, w in seq],
+                    "address(network) on one script object asked for several networks in turn differs from the reference")
+                break
+        else:
+            res.ok("one object, all networks in turn == ref", ("reuse",) + key)
         # parsed script -> address
         ps = attempt(lambda: bs.ScriptPubKey.parse(BytesIO(bytes([len(spk)]) + spk)))
         pa = attempt(lambda: (type(ps).__name__, ps.address(net)))
